@@ -364,7 +364,16 @@ func TestC16(t *testing.T) {
 		}
 		if it.minter != nil {
 			if it.err = c16CheckMinted(it, nowSec); it.err != nil {
-				return
+				if strings.HasPrefix(it.err.Error(), "minted token times") {
+					// the real mint does not stamp the times the model of CreateSession predicts
+					// (iat = nbf = now, exp = now + lifetime).  That is behaviour of the code under
+					// test, not a harness failure: present the real token anyway and let the
+					// statement's oracle judge what it authenticates.
+					rep.DriftCase(it.key+":mint", "minted token carries other times than the model of the mint", it.err.Error())
+					it.err = nil
+				} else {
+					return
+				}
 			}
 		} else {
 			c, err := c16Craft(it.vec.Cfg, it.vec.In, nowSec, it.rng)
